@@ -11,6 +11,7 @@
 -/
 import Saltpack.Props.C07
 import Saltpack.Proofs.ArmoredRT
+import Saltpack.Model.Armored
 
 namespace Saltpack.Props.C07
 open Saltpack Saltpack.Armor
@@ -45,6 +46,42 @@ theorem C07_roundtrip_armored_reader (P : Prims) (hP : P.Lawful)
   obtain ⟨r, hr, sr, ho, _, _, hs, hv⟩ :=
     Proofs.detached_armored_roundtrip P hP v signer nonce msg hn kr hk brand hbr out hout
   exact ⟨r, hr, sr, ho, hs, by rw [C07_reader_any_fragmentation, hfr]; exact hv⟩
+
+/-! ## the model's armored entry points (Model/Armored.lean: the frame type
+     `Sign.detachedArmorType` is part of the model) -/
+
+/-- **`SignDetachedArmor62` ∘ `Dearmor62VerifyDetached`** on the model's entry
+    points: the signer's key and the brand come back -/
+theorem C07_detached_armored_entry_roundtrip (P : Prims) (hP : P.Lawful)
+    (v : Version) (signer nonce msg : Bytes) (hn : nonce.length + 92 < 2 ^ 32)
+    (kr : Keyring) (hk : kr.lookupSigningPublicKey (P.sigPub signer) = some (P.sigPub signer))
+    (brand : Bytes) (hbr : Proofs.BrandOK brand)
+    (text : Bytes) (htext : Sign.detachedArmor62 P v signer nonce msg brand = .ok text) :
+    Sign.dearmor62VerifyDetached P knownMajor kr text msg = .ok (.ok (P.sigPub signer, brand)) := by
+  unfold Sign.detachedArmor62 armorResult at htext
+  cases hm : Sign.detachedWith P v signer nonce msg with
+  | error e => rw [hm] at htext; cases htext
+  | ok out =>
+    rw [hm] at htext
+    injection htext with htext
+    subst htext
+    obtain ⟨r, hr, sr, ho, hp, hb, hs, hv⟩ :=
+      Proofs.detached_armored_roundtrip P hP v signer nonce msg hn kr hk brand hbr out hm
+    unfold Sign.dearmor62VerifyDetached
+    rw [show Sign.detachedArmorType = mtDetached from rfl, ho]
+    simp only [hs, hv, hb]
+
+/-- **wrong frame type refused**: a text with the frames of an ENCRYPTED or
+    SIGNED message is refused by `Dearmor62VerifyDetached` at the frame check,
+    whatever the keyring and the message -/
+theorem C07_detached_armored_wrong_frame_refused (P : Prims) (valid : Validator) (kr : Keyring)
+    (typ : Int) (ht : Proofs.Armorable typ) (hne : typ ≠ mtDetached) (brand : Bytes) (hbr : Proofs.BrandOK brand)
+    (payload msg : Bytes) :
+    ∃ e, Sign.dearmor62VerifyDetached P valid kr (seal62 typ brand payload) msg = .ok (.error e) := by
+  obtain ⟨e, he⟩ := Proofs.open_seal_wrong_type typ mtDetached ht (Or.inr (Or.inr rfl)) hne brand hbr payload
+  refine ⟨e, ?_⟩
+  unfold Sign.dearmor62VerifyDetached
+  rw [show Sign.detachedArmorType = mtDetached from rfl, he]
 
 /-! ## non-vacuity -/
 
